@@ -18,6 +18,7 @@
    nothing but __orig_class__ was added to the instance. *)
 From Coq Require Import ZArith List Bool String Ascii.
 From CSS Require Import Base.PyList Json.Model Json.Proofs Json.SpecProofs Json.BijProofs Json.InitProofs.
+From CSS Require Import Forest.Spec Spec.Eval Json.EvalProofs.
 Import ListNotations.
 Open Scope Z_scope.
 
@@ -165,6 +166,64 @@ Theorem C18_bijection_roundtrip : forall b,
     (forall k, dget pair_eqb k (b_order cls b') = dget pair_eqb k (b_order cls b)) /\
     (forall k, dget pair_eqb k (b_data cls b') = dget pair_eqb k (b_data cls b)).
 Proof. intros b H. eapply bij_roundtrip; eauto. Qed.
+
+(* ------------------------------------------------------------------ same enumeration *)
+(* "the reloaded specification has the same counts / objects / equations": connected to the
+   evaluation model of C01 (Spec/Eval.v).  `sem` is what turns a rule OBJECT into its term
+   operator (children labels with shifts + the constructor's get_terms; or get_sub_objects for
+   object lists; ..), `label` numbers the classes, `terms` is ANY type of term tables, and
+   `espec s` is the specification Spec/Eval.v evaluates: the rule stored for the class with that
+   label.  ASSUMED of strategies (and of nothing else): `sem` is a deterministic function of the
+   rule form, the classes, idx and the strategies' KIND AND SETTINGS - it gives the same operator
+   for two rule objects that differ only in the instance attribute __orig_class__ (sem_settings) -
+   and an operator's answer depends on its providers only through the values they return
+   (sem_extensional; weaker than Spec/Eval.v's `local`).
+   Then the reloaded specification has the same root, the same classes in the same order, and
+   evaluates identically: for every fuel, class label and size `eval` returns the same table. *)
+Section Enumeration.
+Variable terms : Type.
+Variable dflt : terms.
+Variable label : cls -> nat.
+Variable sem : rule cls -> option (srule terms).
+Hypothesis sem_settings : forall r, sem (strip_rule cls r) = sem r.
+Hypothesis sem_extensional : forall r sr, sem r = Some sr -> op_extensional terms sr.
+
+Theorem C18_roundtrip_same_enumeration : forall s,
+  spec_wf s ->
+  exists s', spec_of_json (json_of_spec s) = Ok s' /\
+    sp_root cls s' = sp_root cls s /\
+    map fst (sp_rules cls s') = map fst (sp_rules cls s) /\
+    forall fuel c n, eval terms dflt (espec cls terms label sem s') fuel c n
+                     = eval terms dflt (espec cls terms label sem s) fuel c n.
+Proof.
+  intros s H. exists (strip_spec cls s). split; [eapply spec_roundtrip; eauto|].
+  split; [reflexivity|]. split; [unfold strip_spec; simpl; rewrite map_map; reflexivity|].
+  apply same_enumeration; auto. apply strip_same_structure.
+Qed.
+
+(* the general form: ANY two specification objects of the same structure (same root, same classes
+   in the same order, rules equal up to __orig_class__) enumerate the same - e.g. the original and
+   what a second, third .. round trip returns *)
+Theorem C18_same_structure_same_enumeration : forall a b,
+  same_structure cls a b ->
+  forall fuel c n, eval terms dflt (espec cls terms label sem a) fuel c n
+                   = eval terms dflt (espec cls terms label sem b) fuel c n.
+Proof. intros a b H. apply same_enumeration; auto. Qed.
+End Enumeration.
+
+(* per-rule observables (get_equation of a rule, formal_step, constructor, shifts ..): any function
+   of a rule object that does not read __orig_class__ has the same value, class by class in the same
+   order, on the reloaded specification *)
+Theorem C18_roundtrip_same_rule_observables : forall (X : Type) (obs : rule cls -> X) s,
+  (forall r, obs (strip_rule cls r) = obs r) ->
+  spec_wf s ->
+  exists s', spec_of_json (json_of_spec s) = Ok s' /\
+    map (fun kr : cls * rule cls => (fst kr, obs (snd kr))) (sp_rules cls s')
+    = map (fun kr : cls * rule cls => (fst kr, obs (snd kr))) (sp_rules cls s).
+Proof.
+  intros X obs s Ho H. exists (strip_spec cls s). split; [eapply spec_roundtrip; eauto|].
+  apply strip_same_observables. exact Ho.
+Qed.
 
 End C18.
 
@@ -499,6 +558,222 @@ Example C18_decimal_keys_nonvacuous :
   Z_of_dec (dec_of_Z 120) = Some 120 /\ dec_of_Z 120 = [49; 50; 48] /\ Z_of_dec [49; 97] = None.
 Proof. split; [apply C18_decimal_keys; discriminate|split; reflexivity]. Qed.
 
+(* ================================================================ factories and atom strategies
+   The examples above exercise the categories CStrategy, CVerif and CEmpty.  Module Kinds adds a
+   StrategyFactory class F (to_jsonable writes class_module, strategy_class and the settings, NO
+   flags: s_flags = None) and the library's AtomStrategy (no flags written, no settings, from_dict
+   asserts that nothing is left), alone, inside a pack, and - the atom - inside a rule and a
+   specification. *)
+Module Kinds.
+Import Example.
+Definition F := s2l "F".
+Definition n_AtomStrategy := s2l "AtomStrategy".
+Definition cat_of (m n : str) : option scat :=
+  if str_eqb n F then Some CFactory
+  else if str_eqb n n_AtomStrategy then Some CAtom
+  else Example.cat_of m n.
+Definition user_from_dict (m n : str) (d : list (str * json)) : res (option flags * list (str * json)) :=
+  match cat_of m n with
+  | Some CFactory => Ok (None, d)                      (* cls( **d): every key is a setting *)
+  | _ => Example.user_from_dict m n d
+  end.
+(* the atom strategy verifies the class 0 *)
+Definition decomp (s : strat) (c : Z) : option (list Z) :=
+  if str_eqb (s_name s) n_AtomStrategy then (if c =? 0 then Some [] else None) else Example.decomp s c.
+Definition f : strat := mkStrat M F None [(s2l "max_prefix", JNum 9); (s2l "as_rule", JBool true)] [].
+Definition f2 : strat := mkStrat M F None [(s2l "max_prefix", JNum 2); (s2l "as_rule", JBool true)] [].
+Definition f_alias : strat :=
+  mkStrat M F None [(s2l "max_prefix", JNum 9); (s2l "as_rule", JBool true)] [(k_orig_class, 3)].
+Definition atom : strat := mkStrat strategy_module n_AtomStrategy fixed_flags [] [].
+Lemma f_ok : strat_ok cat_of user_from_dict f.             Proof. vm_compute. reflexivity. Qed.
+Lemma f2_ok : strat_ok cat_of user_from_dict f2.           Proof. vm_compute. reflexivity. Qed.
+Lemma fa_ok : strat_ok cat_of user_from_dict f_alias.      Proof. vm_compute. reflexivity. Qed.
+Lemma atom_ok : strat_ok cat_of user_from_dict atom.       Proof. vm_compute. split; reflexivity. Qed.
+Lemma u_ok : strat_ok cat_of user_from_dict u.             Proof. vm_compute. reflexivity. Qed.
+Lemma v_ok : strat_ok cat_of user_from_dict v.             Proof. vm_compute. reflexivity. Qed.
+Lemma e_ok : strat_ok cat_of user_from_dict empty_strategy. Proof. vm_compute. split; reflexivity. Qed.
+Lemma fa_dict : strat_dict_ok f_alias.                     Proof. split; reflexivity. Qed.
+(* a pack with two configurations of the factory class (and the aliased one) among the expansion
+   strategies and the atom strategy among the verification strategies *)
+Definition pk : pack := mkPack (s2l "kinds") [u] [] [atom; v] [[f; f2]; [f_alias; u]] [] false.
+Lemma pk_ok : pack_ok cat_of user_from_dict pk.
+Proof.
+  unfold pack_ok, pk; simpl.
+  repeat split; repeat constructor; first [exact u_ok | exact v_ok | exact atom_ok | exact f_ok | exact f2_ok | exact fa_ok].
+Qed.
+Lemma pk_dicts : pack_dicts_ok pk.
+Proof. unfold pack_dicts_ok, pk; simpl. repeat split; repeat constructor; reflexivity. Qed.
+(* a specification whose class 0 is verified by the atom strategy *)
+Definition rules_k : list (rule Z) := [RRule Z u 1 [0; -1]; RVerif Z atom 0 []].
+Definition s_k : spec Z :=
+  mkSpec Z 1 [(1, RRule Z u 1 [0; -1]); (0, RVerif Z atom 0 []); (-1, RVerif Z empty_strategy (-1) [])].
+Lemma s_k_init : spec_init Z Z.eqb is_empty cat_of decomp 1 rules_k = Ok s_k.
+Proof. vm_compute. reflexivity. Qed.
+Lemma rules_k_good :
+  Forall (fun r => rule_ok Z Z.eqb is_empty cat_of decomp Audit.rev Audit.cap r = true /\
+                   rule_strats_all Z (strat_ok cat_of user_from_dict) r) rules_k.
+Proof. repeat constructor; first [exact u_ok | exact atom_ok]. Qed.
+Lemma empty_cat : cat_of strategy_module n_EmptyStrategy = Some CEmpty.
+Proof. reflexivity. Qed.
+End Kinds.
+
+(* C18_strategy_roundtrip on a factory: reloaded exactly; the aliased factory instance is reloaded as
+   the plain one and is == it in both directions; the document has NO flag entries *)
+Example C18_factory_roundtrip :
+  strat_of_json Kinds.cat_of Kinds.user_from_dict (json_of_strat Kinds.cat_of Kinds.f) = Ok Kinds.f /\
+  strat_of_json Kinds.cat_of Kinds.user_from_dict (json_of_strat Kinds.cat_of Kinds.f_alias) = Ok Kinds.f /\
+  strat_eq Kinds.f Kinds.f_alias = true /\ strat_eq Kinds.f_alias Kinds.f = true /\
+  Kinds.f <> Kinds.f_alias /\ strat_eq Kinds.f Kinds.f2 = false /\
+  json_of_strat Kinds.cat_of Kinds.f =
+    JObj [(k_class_module, JStr Example.M); (k_strategy_class, JStr Kinds.F);
+          (Example.s2l "max_prefix", JNum 9); (Example.s2l "as_rule", JBool true)].
+Proof.
+  split; [exact (proj1 (C18_strategy_roundtrip Kinds.cat_of Kinds.user_from_dict Kinds.f Kinds.f_ok))|].
+  destruct (C18_strategy_roundtrip Kinds.cat_of Kinds.user_from_dict Kinds.f_alias Kinds.fa_ok) as [A B].
+  split; [exact A|]. destruct (B Kinds.fa_dict) as [B1 B2].
+  split; [exact B1|]. split; [exact B2|]. split; [discriminate|]. split; reflexivity.
+Qed.
+(* ... and on the atom strategy: only the two header keys are written; a document of the atom strategy
+   with anything else in it is refused (assert not d), and a factory instance carrying flags does NOT
+   satisfy the contract (its to_jsonable would not write them) *)
+Example C18_atom_roundtrip :
+  strat_of_json Kinds.cat_of Kinds.user_from_dict (json_of_strat Kinds.cat_of Kinds.atom) = Ok Kinds.atom /\
+  json_of_strat Kinds.cat_of Kinds.atom =
+    JObj [(k_class_module, JStr strategy_module); (k_strategy_class, JStr Kinds.n_AtomStrategy)] /\
+  strat_of_json Kinds.cat_of Kinds.user_from_dict
+    (JObj [(k_class_module, JStr strategy_module); (k_strategy_class, JStr Kinds.n_AtomStrategy);
+           (k_ignore_parent, JBool true)]) = Err EAssert /\
+  ~ strat_ok Kinds.cat_of Kinds.user_from_dict
+      (mkStrat Example.M Kinds.F (Some (true, false, false, false)) [] []).
+Proof.
+  split; [exact (proj1 (C18_strategy_roundtrip Kinds.cat_of Kinds.user_from_dict Kinds.atom Kinds.atom_ok))|].
+  split; [reflexivity|]. split; [reflexivity|]. vm_compute. discriminate.
+Qed.
+(* C18_pack_roundtrip on a pack holding two configurations of the factory class, an aliased factory
+   instance and the atom strategy: both configurations come back, in place *)
+Example C18_pack_roundtrip_factory_atom :
+  pack_of_json Kinds.cat_of Kinds.user_from_dict (json_of_pack Kinds.cat_of Kinds.pk) = Ok (strip_pack Kinds.pk) /\
+  p_expansion (strip_pack Kinds.pk) = [[Kinds.f; Kinds.f2]; [Kinds.f; Example.u]] /\
+  p_ver (strip_pack Kinds.pk) = [Kinds.atom; Example.v] /\
+  pack_eq (strip_pack Kinds.pk) Kinds.pk = true /\ pack_eq Kinds.pk (strip_pack Kinds.pk) = true /\
+  strip_pack Kinds.pk <> Kinds.pk.
+Proof.
+  destruct (C18_pack_roundtrip Kinds.cat_of Kinds.user_from_dict Kinds.pk Kinds.pk_ok) as [A B].
+  split; [exact A|]. split; [reflexivity|]. split; [reflexivity|]. destruct (B Kinds.pk_dicts) as [B1 B2].
+  split; [exact B1|]. split; [exact B2|discriminate].
+Qed.
+(* C18_rule_roundtrip on the verification rule of the atom strategy; a factory is not the strategy
+   of any rule (Rule.from_dict asserts isinstance(strategy, Strategy)) *)
+Example C18_rule_roundtrip_atom :
+  rule_of_json Z Example.of_json Example.is_empty Kinds.cat_of Kinds.user_from_dict Kinds.decomp Audit.rev Audit.cap
+               (json_of_rule Z Example.to_json Kinds.cat_of (RVerif Z Kinds.atom 0 [])) = Ok (RVerif Z Kinds.atom 0 []) /\
+  rule_ok Z Z.eqb Example.is_empty Kinds.cat_of Kinds.decomp Audit.rev Audit.cap (RRule Z Kinds.f 1 [0; -1]) = false.
+Proof.
+  split; [|vm_compute; reflexivity].
+  destruct (C18_rule_roundtrip Z Z.eqb Audit.eqb_spec Example.to_json Example.of_json Audit.codec
+              Example.is_empty Kinds.cat_of Kinds.user_from_dict Kinds.decomp Audit.rev Audit.cap
+              (RVerif Z Kinds.atom 0 []) ltac:(vm_compute; reflexivity) Kinds.atom_ok) as [A [_ C]].
+  rewrite (C eq_refl) in A. exact A.
+Qed.
+(* C18_constructed_spec_roundtrip on a specification whose class 0 is verified by the atom strategy *)
+Example C18_constructed_spec_roundtrip_atom :
+  spec_of_json Z Z.eqb Example.of_json Example.is_empty Kinds.cat_of Kinds.user_from_dict
+               Kinds.decomp Audit.rev Audit.cap (json_of_spec Z Example.to_json Kinds.cat_of Kinds.s_k) = Ok Kinds.s_k.
+Proof.
+  destruct (C18_constructed_spec_roundtrip Z Z.eqb Audit.eqb_spec Example.to_json Example.of_json
+              Audit.codec Example.is_empty Kinds.cat_of Kinds.user_from_dict Kinds.decomp
+              Audit.rev Audit.cap 1 Kinds.rules_k Kinds.s_k Kinds.empty_cat Kinds.rules_k_good Kinds.s_k_init)
+    as [_ [_ C]].
+  apply C. reflexivity.
+Qed.
+
+(* ================================================================ same enumeration, applied
+   Term tables are plain counts (terms = Z).  The semantics of the universe of Module Example:
+   a rule of the strategy class U counts the sum of its children's counts at the same size,
+   multiplied by its SETTING k (so the operator depends on a setting); the verification strategy V
+   counts one object of size 0; the EmptyStrategy counts nothing; the other rule forms have no
+   operator here.  Classes are labelled c |-> c + 1. *)
+Module Enum.
+Import Example.
+Definition label (c : Z) : nat := Z.to_nat (c + 1).
+Definition weight (s : strat) : Z :=
+  match dget str_eqb (s2l "k") (s_user s) with Some (JNum z) => z | _ => 1 end.
+Definition sem (r : rule Z) : option (srule Z) :=
+  match r with
+  | RRule _ s c ch =>
+      Some (mkrule Z (map (fun k => (label k, 0)) ch)
+                   (fun p _ n => fold_right Z.add 0 (map (fun i => p i n) (seq 0 (List.length ch))) * weight s))
+  | RVerif _ s c ch =>
+      Some (mkrule Z [] (fun _ _ n => if str_eqb (s_name s) V then (if n =? 0 then 1 else 0) else 0))
+  | _ => None
+  end.
+Lemma sem_settings : forall r, sem (strip_rule Z r) = sem r.
+Proof. intros [s c ch|s c ch|r|rs|r i]; reflexivity. Qed.
+Lemma sem_extensional : forall r sr, sem r = Some sr -> op_extensional Z sr.
+Proof.
+  intros [s c ch|s c ch|r|rs|r i] sr H; inversion H; subst; intros p p' o o' n Hp Ho; simpl; [|reflexivity].
+  f_equal. f_equal. apply map_ext. intros i. apply Hp.
+Qed.
+(* the same specification with the setting k = 4 instead of 3 *)
+Definition u4 : strat :=
+  mkStrat M U (Some (false, true, true, true)) [(s2l "k", JNum 4); (s2l "tag", JStr (s2l "x"))] [].
+Definition s_a4 : spec Z :=
+  mkSpec Z 1 [(1, RRule Z u4 1 [0; -1]); (0, RVerif Z v 0 []); (-1, RVerif Z empty_strategy (-1) [])].
+End Enum.
+
+(* covers C18_roundtrip_same_enumeration: the specification s_a holds the ALIASED instance of U, the
+   reloaded one the plain instance - a different object (C18_spec_roundtrip_nonvacuous) that evaluates
+   identically, for every fuel, class and size *)
+Example C18_roundtrip_same_enumeration_nonvacuous :
+  exists s',
+    spec_of_json Z Z.eqb Example.of_json Example.is_empty Example.cat_of Example.user_from_dict
+                 Example.decomp Audit.rev Audit.cap (json_of_spec Z Example.to_json Example.cat_of Audit.s_a) = Ok s' /\
+    sp_root Z s' = 1 /\ map fst (sp_rules Z s') = [1; 0; -1] /\
+    forall fuel c n, eval Z 0 (espec Z Z Enum.label Enum.sem s') fuel c n
+                     = eval Z 0 (espec Z Z Enum.label Enum.sem Audit.s_a) fuel c n.
+Proof.
+  exact (C18_roundtrip_same_enumeration Z Z.eqb Audit.eqb_spec Example.to_json Example.of_json Audit.codec
+           Example.is_empty Example.cat_of Example.user_from_dict Example.decomp Audit.rev Audit.cap
+           Z 0 Enum.label Enum.sem Enum.sem_settings Enum.sem_extensional Audit.s_a Audit.s_a_wf).
+Qed.
+(* ... the values: the root (label 2) counts 3 = (1 + 0) * k objects of size 0 and none of size 1, on both
+   objects; too little fuel answers the default on both; and the evaluation DISCRIMINATES: the same
+   specification with the setting k = 4 counts 4 (so "evaluates identically" is not true of any two
+   specifications, and the assumption that sem depends on the settings is used) *)
+Example C18_roundtrip_same_enumeration_values :
+  eval Z 0 (espec Z Z Enum.label Enum.sem (strip_spec Z Audit.s_a)) 5 2%nat 0 = 3 /\
+  eval Z 0 (espec Z Z Enum.label Enum.sem Audit.s_a) 5 2%nat 0 = 3 /\
+  eval Z 0 (espec Z Z Enum.label Enum.sem Audit.s_a) 5 2%nat 1 = 0 /\
+  eval Z 0 (espec Z Z Enum.label Enum.sem Audit.s_a) 5 1%nat 0 = 1 /\
+  eval Z 0 (espec Z Z Enum.label Enum.sem Audit.s_a) 1 2%nat 0 = 0 /\
+  eval Z 0 (espec Z Z Enum.label Enum.sem Enum.s_a4) 5 2%nat 0 = 4 /\
+  strip_spec Z Audit.s_a <> Audit.s_a.
+Proof. vm_compute. repeat split; try reflexivity. discriminate. Qed.
+(* covers C18_same_structure_same_enumeration (a second round trip: strip of strip) and
+   C18_roundtrip_same_rule_observables (the observable: the weight of the rule's strategy) *)
+Example C18_same_structure_same_enumeration_nonvacuous :
+  forall fuel c n,
+    eval Z 0 (espec Z Z Enum.label Enum.sem (strip_spec Z (strip_spec Z Audit.s_a))) fuel c n
+    = eval Z 0 (espec Z Z Enum.label Enum.sem Audit.s_a) fuel c n.
+Proof.
+  apply (C18_same_structure_same_enumeration Z Z 0 Enum.label Enum.sem Enum.sem_settings Enum.sem_extensional).
+  split; [reflexivity|]. split; reflexivity.
+Qed.
+Example C18_roundtrip_same_rule_observables_nonvacuous :
+  exists s',
+    spec_of_json Z Z.eqb Example.of_json Example.is_empty Example.cat_of Example.user_from_dict
+                 Example.decomp Audit.rev Audit.cap (json_of_spec Z Example.to_json Example.cat_of Audit.s_a) = Ok s' /\
+    map (fun kr : Z * rule Z => (fst kr, option_map Enum.weight (rule_strat Z Example.is_empty (snd kr)))) (sp_rules Z s')
+    = [(1, Some 3); (0, Some 1); (-1, Some 1)].
+Proof.
+  destruct (C18_roundtrip_same_rule_observables Z Z.eqb Audit.eqb_spec Example.to_json Example.of_json Audit.codec
+              Example.is_empty Example.cat_of Example.user_from_dict Example.decomp Audit.rev Audit.cap
+              (option Z) (fun r => option_map Enum.weight (rule_strat Z Example.is_empty r)) Audit.s_a
+              ltac:(intros r; cbv beta; rewrite rule_strat_strip; destruct (rule_strat Z Example.is_empty r); reflexivity)
+              Audit.s_a_wf) as (s' & A & B).
+  exists s'. split; [exact A|]. rewrite B. reflexivity.
+Qed.
+
 Print Assumptions C18_strategy_roundtrip.
 Print Assumptions C18_strategy_eq_kind_settings.
 Print Assumptions C18_loaded_strategy_plain.
@@ -507,4 +782,7 @@ Print Assumptions C18_pack_roundtrip.
 Print Assumptions C18_spec_roundtrip.
 Print Assumptions C18_constructed_spec_roundtrip.
 Print Assumptions C18_bijection_roundtrip.
+Print Assumptions C18_roundtrip_same_enumeration.
+Print Assumptions C18_same_structure_same_enumeration.
+Print Assumptions C18_roundtrip_same_rule_observables.
 Print Assumptions C18_decimal_keys.
